@@ -357,7 +357,7 @@ Inductive resolved :=
 | BadRequest                                   (* the server answers 400 before any handler runs *)
 | OutOfDomain                                  (* request-target not in origin form: not modelled *)
 | NotFound (hs : headers)                      (* http.NotFound with these headers already set *)
-| Redirect (code : N) (loc : bytes) (hs : headers) (html : bool)
+| Redirect (found : bool) (loc : bytes) (hs : headers) (html : bool)   (* 302 Found / 301 Moved Permanently *)
 | Special (k : special)
 | File (root : N) (rel : bytes) (hs : headers) (upath : bytes) (qs : bytes).
    (* the file server of directory `root` is asked for the cleaned name rel; upath is the
@@ -367,18 +367,18 @@ Inductive resolved :=
 (* FileServer.ServeHTTP up to the Open call *)
 Definition file_server (root : N) (upath : bytes) (qs : bytes) (hs : headers) : resolved :=
   let upath := rooted upath in
-  if has_suffix (s2b "/index.html") upath then Redirect 301 (s2b "./" ++ qs) hs false
+  if has_suffix (s2b "/index.html") upath then Redirect false (s2b "./" ++ qs) hs false
   else File root (path_clean upath) hs upath qs.
 
 (* the inner logMux, reached with URL.Path p / RawPath rp; fprefix is what the witness
    handler puts back in front of the path ("" for logs) *)
 Definition log_mux (c : config) (root : N) (fprefix : bytes) (host p rp qs : bytes) : resolved :=
   match mux_dispatch (log_patterns (negb (is_nil (c_home c)))) host p rp qs with
-  | MRedirect loc => Redirect 301 loc hs0 true
+  | MRedirect loc => Redirect false loc hs0 true
   | MNotFound => NotFound hs0
   | MFound h ms =>
     match h with
-    | LHome => Redirect 302 (c_home c) hs0 true
+    | LHome => Redirect true (c_home c) hs0 true
     | LCheckpoint => file_server root (fprefix ++ p) qs hs_checkpoint
     | LLogJSON => file_server root (fprefix ++ p) qs hs_json
     | LIssuer => file_server root (fprefix ++ p) qs hs_issuer
@@ -406,7 +406,7 @@ Definition query_suffix (q : bytes) : bytes := match q with [_] => [] | _ => q e
 Definition top_handle (c : config) (host p rp qs : bytes) (h : top_h) (ms : list bytes) : resolved :=
   match h with
   | HSpecial k => Special k
-  | HHome => Redirect 302 (c_home c) hs0 true
+  | HHome => Redirect true (c_home c) hs0 true
   | HLog e =>
     strip_then (prefix_path (e_prefix e)) p rp hs0 (fun p' rp' => log_mux c (e_root e) [] host p' rp' qs)
   | HWitOrigin e =>
@@ -424,7 +424,7 @@ Definition top_handle (c : config) (host p rp qs : bytes) (h : top_h) (ms : list
 (* the outer mux, for a parsed URL *)
 Definition top_mux (c : config) (host p rp qs : bytes) : resolved :=
   match mux_dispatch (top_patterns c) host p rp qs with
-  | MRedirect loc => Redirect 301 loc hs0 true
+  | MRedirect loc => Redirect false loc hs0 true
   | MNotFound => NotFound hs0
   | MFound h ms => top_handle c host p rp qs h ms
   end.
@@ -544,8 +544,8 @@ Definition respond (t : fstab) (r : resolved) : response :=
   | BadRequest => mkResp 400 [] ct_text [] [] false None
   | OutOfDomain => mkResp 0 [] [] [] [] false None
   | NotFound hs => error_resp 404 hs false
-  | Redirect code loc hs html =>
-    mkResp code loc (if html then ct_html else h_ct hs) (h_ce hs) (h_cc hs) (h_acao hs) None
+  | Redirect found loc hs html =>
+    mkResp (if found then 302 else 301) loc (if html then ct_html else h_ct hs) (h_ce hs) (h_cc hs) (h_acao hs) None
   | Special k => special_resp k
   | File root rel hs upath qs =>
     match fs_open t root rel with
